@@ -201,12 +201,16 @@ type ConnectOpts struct {
 	WillQos    int32
 	WillRetain bool
 	Clean      bool
+	// UserPresent sends the user name flag even when User is empty (present-but-empty differs from absent)
+	UserPresent bool
 }
 
 func (c *Client) Connect(o ConnectOpts) int32 {
 	p := &packet.Connect{Header: &packet.Header{}, ClientId: []byte(o.ClientID), KeepaliveTimer: o.KeepAlive, Clean: true}
-	if o.User != "" {
-		p.Username = []byte(o.User)
+	if o.User != "" || o.UserPresent {
+		p.Username = append([]byte{}, o.User...) // non-nil even when empty
+	}
+	if o.Password != "" {
 		p.Password = []byte(o.Password)
 	}
 	if o.WillTopic != "" {
@@ -396,7 +400,7 @@ func EncodeConnect(p *packet.Connect) []byte {
 		tail = append(tail, lp(p.WillTopic)...)
 		tail = append(tail, lp(p.WillPayload)...)
 	}
-	if len(p.Username) > 0 {
+	if p.Username != nil {
 		flags |= 0x80
 		tail = append(tail, lp(p.Username)...)
 	}
